@@ -154,3 +154,72 @@ func allTypedSorted(r *ev.Run) int {
 	n += typedSorted(r, "*int (by pointee)", func() []*int { a, b, c := 1, 2, 3; return []*int{&a, &b, &c} }(), func(a, b *int) bool { return *a < *b }, d)
 	return n
 }
+
+
+// panickingLess: a less function that panics at its k-th call inside Add / Remove / Index / Contains (the
+// caller recovers). Afterwards the Sorted must still be sorted and hold either exactly what it held
+// before or exactly the completed operation's result - never a half-shifted slice.
+func panickingLess(r *ev.Run) int {
+	cases := 0
+	for n := 0; n <= 7; n++ {
+		for v := -1; v <= 2*n+1; v += 1 {
+			for _, opName := range []string{"Add", "Remove", "Index", "Contains"} {
+				for k := 1; k <= 6; k++ {
+					base := make([]int, n)
+					for i := range base {
+						base[i] = 2 * i // even values; odd v are absent
+					}
+					armed, calls := false, 0
+					less := func(a, b int) bool {
+						if armed {
+							if calls++; calls == k {
+								panic("less failed")
+							}
+						}
+						return a < b
+					}
+					s := slices.NewSorted(base, less)
+					armed = true
+					completed := false
+					func() {
+						defer func() { recover() }()
+						switch opName {
+						case "Add":
+							s.Add(v)
+						case "Remove":
+							s.Remove(v)
+						case "Index":
+							s.Index(v)
+						default:
+							s.Contains(v)
+						}
+						completed = true
+					}()
+					armed = false
+					cases++
+					got := make([]int, s.Len())
+					for i := range got {
+						got[i] = s.Get(i)
+					}
+					before := append([]int{}, base...)
+					after := append([]int{}, base...)
+					switch opName {
+					case "Add":
+						after = append(after, v)
+						sort.Ints(after)
+					case "Remove":
+						if i := sort.SearchInts(after, v); i < len(after) && after[i] == v {
+							after = append(after[:i], after[i+1:]...)
+						}
+					}
+					ok := fmt.Sprint(got) == fmt.Sprint(after) || (!completed && fmt.Sprint(got) == fmt.Sprint(before))
+					if !ok {
+						r.Report(ev.Violation{Sig: "panicking-less|sorted", Msg: fmt.Sprintf("Sorted %v: %s(%d) with a less function that panics at its call %d (completed=%v) leaves %v; want %v or %v", base, opName, v, k, completed, got, before, after), Replay: map[string]any{"family": "panicking-less", "n": n, "value": v, "op": opName, "call": k}})
+						return cases
+					}
+				}
+			}
+		}
+	}
+	return cases
+}
